@@ -115,6 +115,71 @@ def contract_suite(res, cases, per=250):
                                detail="contract and model differ under the hypotheses on %d cases" % hist[2]))
 
 
+def ci_case(i_seed):
+    """case-insensitivity as declared: Field(case_insensitive=True / False) decides, the class option only when the field says
+    nothing.  The reflected class carries the parser's own derived name tables, so this is judged from the declaration text."""
+    import warnings
+    warnings.simplefilter("ignore")
+    rng = random.Random(i_seed)
+    t = dyn.fresh("Ci")
+    cls_ci = rng.choice([None, True, False])
+    add = rng.choice([None, None, True, False])
+    okw = {}
+    if cls_ci is not None: okw["case_insensitive"] = cls_ci
+    if add is not None: okw["addition"] = add
+    if rng.random() < 0.3: okw["data_first_search"] = rng.choice([True, False])
+    lines = ["class %s(%s):" % (t, rng.choice(["Schema", "DataClass"]))]
+    if okw:
+        lines.append("    __options__ = Options(%s)" % ", ".join("%s=%r" % kv for kv in okw.items()))
+    fields = []
+    for fn in ["name", "token", "qty"][:rng.randint(1, 3)]:
+        fci = rng.choice([None, None, True, False])
+        alias = fn + "Key" if rng.random() < 0.3 else None
+        kw = ["default='dflt'"]
+        if fci is not None: kw.append("case_insensitive=%r" % fci)
+        if alias: kw.append("alias_from=[%r]" % alias)
+        lines.append("    %s: str = Field(%s)" % (fn, ", ".join(kw)))
+        fields.append((fn, fci, alias))
+    src = "\n".join(lines) + "\n"
+    try:
+        dyn.declare(src)
+    except Exception:
+        return None
+    K = dyn.get(t)
+    fn, fci, alias = rng.choice(fields)
+    base = rng.choice([fn] + ([alias] if alias else []))
+    key = rng.choice([base.upper(), base.capitalize(), base.swapcase()])
+    if key == base:
+        return None
+    expect_ci = fci if fci is not None else bool(cls_ci)
+    try:
+        inst = K.__from__({key: "given"})
+        got = ("ok", getattr(inst, fn, "<unset>"))
+    except Exception as e:
+        got = ("err", type(e).__name__)
+    if expect_ci:
+        ok = got == ("ok", "given")
+    elif add is False:
+        ok = got[0] == "err"
+    else:
+        ok = got == ("ok", "dflt")
+    if not ok:
+        return "%s\ninput {%r: 'given'}: field %r is %scase-insensitive by declaration, got %r" % (src, key, fn, "" if expect_ci else "not ", got)
+    return ("ok", expect_ci)
+
+
+def ci_suite(res, tier, seed):
+    n = 2000 if tier == "quick" else 30000
+    outs = core.pool_map(ci_case, [seed * 1000193 + i for i in range(n)])
+    bad = [o for o in outs if isinstance(o, str)]
+    res.add_suite("declared-case-insensitivity", n, n, ["seeded: 1-3 str fields with case_insensitive True / False / unset, optional alias_from, class option True / False / unset"],
+                  "a key given in another letter case matches a field exactly when the field's own case_insensitive says so, or, when it "
+                  "says nothing, the class option does (judged from the declaration text, not from the parser's derived name tables, under "
+                  "both lookup strategies and every addition policy)", dict(failures=len(bad)))
+    for o in bad[:3]:
+        res.violations.append(dict(case=repr(dict(kind="declared-ci")), observed=o, what=o))
+
+
 def main(tier, seed):
     warnings.simplefilter("ignore")
     res = core.Result(PID, tier, seed)
@@ -136,6 +201,7 @@ def main(tier, seed):
         res.violations.append(dict(case=repr(dict(src=srcs.get(c["cls"], ""), ropts=c.get("ropts"), data=c["data"], entry=c.get("entry"))),
                                    observed=repr(o)[:600],
                                    what="the implementation departs from the model that is proved to implement the field contract"))
+    ci_suite(res, tier, seed)
     return core.finish(res, "make -C coq Props/C05.vo && coqc (Print Assumptions audit)", "see suites", search=None,
                        level_note="the contract theorem is about parse_data of Model/Parse.v (tied by the fields suite) for declarations "
                                   "satisfying wf_cdecl (what generate_aliases / apply_fields guarantee; evaluated on every reflected class), "
